@@ -2,6 +2,8 @@ import LoraVerif.Model.Device
 import LoraVerif.Model.History
 import LoraVerif.Lemmas.ExceptLemmas
 import LoraVerif.Lemmas.RefineNb
+import LoraVerif.Lemmas.ExpiredC
+import LoraVerif.Lemmas.ChainC
 /-!
 # C06 — uplink frame counters never repeat within a session
 
@@ -2070,6 +2072,112 @@ example : abstractAsync lcg { demoCfgC with classC := false } mAbp 1 [.ok, .ok, 
     .uplink [1] 1 false (some 1) (some (cDown 4 false, 2)) none 59 59 := by rfl
 
 
+/-! ### `SessionExpired` INSIDE a receive procedure (builder M)
+
+`runC_fcnt_strict` reads the response of the whole procedure.  A Class C acceptance on the RXC
+parameters in the middle of a procedure can be the event that exhausts the counter space: the session
+below is at `fcnt_up = 2^32 − 2`; the uplink goes out with that counter; the first frame heard between
+TX and RX1 is accepted and moves `fcnt_up` to `2^32 − 1`; the second and the one heard between RX1 and
+RX2 are then answered `SessionExpired` by `handle_rxc` (the `heard` list), the counter stays, and the
+procedure itself ends with `SessionExpired` (`rx2_complete` at the last counter): expiry is REPORTED by
+the event, so `FcntStrict` drops its claim exactly there.  The next uplink — which the property no longer
+speaks about — carries `2^32 − 1`, still strictly above. -/
+
+def cFrame (w : Nat) : RxView × Int :=
+  (.data { len := 14, confirmed := false, fcnt16 := w, micFcnt := some w, fopts := [], fport := some 1, payload := [w] }, 5)
+
+/-- an ABP session two uplinks before the end of the counter space -/
+def mLate : MacState :=
+  { macJoinAbp (MacState.init (RegionState.init .EU868) 14 0) 7 1 2 with
+    st := .joined { Session.new 7 1 2 with fcntUp := 0xFFFFFFFE } }
+
+def lateHistoryC : List EvC :=
+  [ .uplinkC true [1] 1 false none [cFrame 1, cFrame 2] none [cFrame 3] none,
+    .uplinkC true [2] 1 false none [] none [] none ]
+
+/-- per uplink: its counter, whether the procedure reported `SessionExpired`, and for each frame handled
+inside the procedure whether `handle_rxc` answered `SessionExpired` -/
+def respOfC (o : OutC) : Option (Nat × Bool × List Bool) :=
+  match o.out with
+  | .up so r _ => some (so.frame.fcnt, expiredResp r, o.heard.map (fun x => x.resp == .sessionExpired))
+  | _ => none
+
+example : (runC lcg (mLate, 1) lateHistoryC).toOption.map (fun r => r.2.map respOfC) =
+    some [some (4294967294, true, [false, true, true]), some (4294967295, true, [])] := by decide +kernel
+example : (runC lcg (mLate, 1) lateHistoryC).toOption.map
+      (fun r => match r.1.1.st with | .joined s => some (s.fcntUp, s.fcntDown) | _ => none) =
+    some (some (4294967295, some 3)) := by decide +kernel
+
+/-- the instance of `runC_fcnt_strict` for that run, from the session's own counter -/
+example (ms' : MacState × Nat) (ocs : List OutC) (h : runC lcg (mLate, 1) lateHistoryC = .ok (ms', ocs)) :
+    FcntStrict (some 0xFFFFFFFE) ((lateHistoryC.map projEv).zip (ocs.map (fun oc => oc.out))) :=
+  runC_fcnt_strict lcg mLate 1 lateHistoryC ms' ocs (some 0xFFFFFFFE)
+    (fun lo e s hs => by cases e; cases hs; exact Nat.le_refl _) h
+
+
+/-- **an expiry INSIDE the receive procedure is reported by the procedure.**  `send` + receive procedure
+of a device with a session, either class, any frames, any fault position: if the uplink went out with
+the last counter, or ANY frame handled during the procedure — on the RXC parameters before RX1 or
+before RX2, or in a window — was answered `SessionExpired` (the `heard` list), then the procedure as a
+whole reports `SessionExpired` to the application.  So the point where `FcntStrict` (and the property:
+"until the device reports SessionExpired") drops its claim is never missed because the exhaustion
+happened in the middle of a procedure.  (Reference level: `Lemmas/ExpiredC.lean`.) -/
+theorem stepC_expired_reported {σ} (g : Rng σ) (m m' : MacState) (rs rs' : σ) (s : Session) (hst : m.st = .joined s)
+    (hl : LastOk s.fcntDown) (cc : Bool) (data : List Nat) (fport : Nat) (conf : Bool) (fault : Option FaultPos)
+    (c1 : List (RxView × Int)) (rx1 : Option (RxView × Int)) (c2 : List (RxView × Int)) (rx2 : Option (RxView × Int))
+    (hv : evOkC (.uplinkC cc data fport conf fault c1 rx1 c2 rx2) = true) (out : OutC)
+    (h : stepC g (m, rs) (.uplinkC cc data fport conf fault c1 rx1 c2 rx2) = .ok ((m', rs'), out))
+    (hx : s.fcntUp = 0xFFFFFFFF ∨ ∃ o ∈ out.heard, o.resp = .sessionExpired) :
+    ∃ so dl, out.out = .up so (some .sessionExpired) dl := by
+  obtain ⟨so, m1, _, hfr, _, _, _, hout, _⟩ :=
+    stepC_uplinkC_joined g m m' rs rs' s hst hl cc data fport conf fault c1 rx1 c2 rx2 hv out h
+  have hfc : so.frame.fcnt = s.fcntUp := by rw [hfr]; rfl
+  rw [hout] at hx ⊢
+  simp only at hx ⊢
+  have hx' : ExpIn (⟨s.fcntDown, so.frame.fcnt⟩ : PSt).fu
+      (refUplink cc ⟨s.fcntDown, so.frame.fcnt⟩ conf (rxcMp m) fault c1 rx1 c2 rx2 so.tx.rx1.maxPayload.toNat
+        so.tx.rx2.maxPayload.toNat).heard := by
+    rw [← hfc] at hx
+    unfold upRefC at hx
+    exact hx
+  have := refUplink_expired cc ⟨s.fcntDown, so.frame.fcnt⟩ conf (rxcMp m) fault c1 rx1 c2 rx2
+    so.tx.rx1.maxPayload.toNat so.tx.rx2.maxPayload.toNat hx'
+  have hres : (upRefC cc s.fcntDown conf (rxcMp m) fault c1 rx1 c2 rx2 so).resp = some .sessionExpired := this
+  exact ⟨so, (upRefC cc s.fcntDown conf (rxcMp m) fault c1 rx1 c2 rx2 so).dl, by rw [hres]⟩
+
+/-- **… at every position of every extended history**: an event whose `heard` list contains
+`SessionExpired` reports `SessionExpired` itself -/
+theorem historyC_expired_reported {σ} (g : Rng σ) (m : MacState) (rs : σ) (gh : Gh) (hr : GhRel m gh) (evs : List EvC)
+    (hv : ∀ ev ∈ evs, evOkC ev = true) (ms' : MacState × σ) (outs : List OutC) (h : runC g (m, rs) evs = .ok (ms', outs))
+    (i : Nat) (mpc : Nat) (cc : Bool) (data : List Nat) (fport : Nat) (conf : Bool) (fault : Option FaultPos)
+    (c1 : List (RxView × Int)) (rx1 : Option (RxView × Int)) (c2 : List (RxView × Int)) (rx2 : Option (RxView × Int)) (out : OutC)
+    (hi : ((annotC g (m, rs) evs).zip outs)[i]? = some ((mpc, .uplinkC cc data fport conf fault c1 rx1 c2 rx2), out))
+    (hx : ∃ o ∈ out.heard, o.resp = .sessionExpired) :
+    ∃ so dl, out.out = .up so (some .sessionExpired) dl := by
+  have hc := runC_chain g (m, rs) ms' evs outs h
+  obtain ⟨⟨mi, rsi⟩, ⟨mi', rsi'⟩, h1, _, hstep, _⟩ := chainC_at g (m, rs) ms' _ i _ out hc hi
+  have hvz : ∀ x ∈ (annotC g (m, rs) evs).zip outs, evOkC x.1.2 = true := fun x hx => hv _ (mem_annot_zip g _ evs outs x hx)
+  have hri := chainC_ghRel g (m, rs) (mi, rsi) _ gh hr (fun x hx => hvz x (List.mem_of_mem_take hx)) h1
+  have hve := hvz _ (List.mem_of_getElem? hi)
+  simp only at hve hstep hri
+  cases hgi : ghostAfterG ghNextC gh (((annotC g (m, rs) evs).zip outs).take i) with
+  | none =>
+    rw [hgi] at hri
+    obtain ⟨_, _, rfl⟩ := stepC_uplinkC_notJoined g mi mi' rsi rsi' hri cc data fport conf fault c1 rx1 c2 rx2 out hstep
+    obtain ⟨o, ho, _⟩ := hx
+    simp at ho
+  | some last =>
+    rw [hgi] at hri
+    obtain ⟨s, hst, rfl, hl⟩ := hri
+    exact stepC_expired_reported g mi mi' rsi rsi' s hst hl cc data fport conf fault c1 rx1 c2 rx2 hve out hstep (Or.inr hx)
+
+
+/-- non-vacuity: the first event of `lateHistoryC` (above) — two of the three frames handled inside the
+procedure are answered `SessionExpired`, and so is the procedure -/
+example : ∀ ev ∈ lateHistoryC, evOkC ev = true := by decide
+example : GhRel mLate (some none) := ⟨_, rfl, rfl, fun l e => by cases e⟩
+
+
 end C06
 
 #print axioms C06.history_fcnt_strict
@@ -2087,5 +2195,7 @@ end C06
 #print axioms C06.cycle_fcnt
 #print axioms C06.fault_fcnt
 #print axioms C06.runC_fcnt_strict
+#print axioms C06.stepC_expired_reported
+#print axioms C06.historyC_expired_reported
 #print axioms C06.async_fcnt_strict
 #print axioms C06.nb_fcnt_strict
